@@ -362,6 +362,10 @@ func (c *c04Case) fail(sig, desc string) {
 		desc = fmt.Sprintf("consequence of %s — observed as %s: %s", c.raceWhy, sig, desc)
 		sig = c.raceSig
 	} else if c.kind == "compact-case" && !strings.HasPrefix(sig, "C04:harness:") && sig != c04SigRestartRace && sig != c04SigIndexerGone && sig != c04SigRegressedSrc {
+		if c.busyRestartWitness("found when a deviation was about to be reported") {
+			c.fail(sig, desc)
+			return
+		}
 		if why := c.foreignInsertLogged(); why != "" && c.unsafeRestart {
 			// D1, second witness (see c04compact.go): the tree rejected an insert of the indexer because ANOTHER
 			// inserter had moved its ts on
